@@ -860,7 +860,8 @@ def main(argv):
         os.makedirs(os.path.dirname(out), exist_ok=True)
         if not os.path.exists(out) or open(out, encoding="utf8").read() != body:
             open(out, "w", encoding="utf8").write(body)
-    return 0
+    # the declarations are written (the Coq side then shows which obligation breaks), but the run is not clean
+    return 3 if repo_unsupported else 0
 
 
 if __name__ == "__main__":
